@@ -97,7 +97,8 @@ Proof. exact restart_keeps_recorded. Qed.
 Theorem C06_recorded_service_reassigned_exactly : forall rank a s o k v ok,
   admissible_now rank a s o -> additional_applies (o_req o) (o_status o) = false ->
   converge rank a s o k = CR v ok ->
-  ok = true /\ cv_mem v = fst (assign a s (o_req o) (o_status o)) /\ same_ips (cv_status v) (o_status o).
+  ok = true /\ cv_mem v = fst (assign a s (o_req o) (o_status o)) /\ same_ips (cv_status v) (o_status o) /\
+  (cv_status v = o_status o \/ cv_status v = sort2 rank (o_status o)).
 Proof. exact converge_recorded. Qed.
 
 Definition yrank (x : ip) : N := ip_val x.
